@@ -21,6 +21,8 @@
         spec fn dec_rel(b: Seq<u8>, v: &T, k: int) -> bool;
         /// the decoder never fails (only the raw copy)
         spec fn dec_total() -> bool;
+        /// where a successful decode may stop (tag loops: only in front of something that is not one of their own tags)
+        spec fn dec_stop(rest: Seq<u8>) -> bool;
 
         //@ fn src:zvt_builder/src/encoding.rs | trait Encoding | encode | sig props=C17,C03
         //@ tag enc.exact C17 C03 ~C01
@@ -41,6 +43,8 @@
                 r matches Ok((v2, rest)) ==> Self::dec_rel(bytes@, &v2, bytes@.len() - rest@.len()),
         //@ tag dec.total C02
                 Self::dec_total() ==> r is Ok,
+        //@ tag dec.stop C13
+                r matches Ok((v2, rest)) ==> Self::dec_stop(rest@),
         //@ end
 
         //@ tag enc.law_inverse C17 C01
@@ -89,6 +93,7 @@
         open spec fn self_delimiting() -> bool { true }
         open spec fn dec_rel(b: Seq<u8>, v: &Tag, k: int) -> bool { true }
         open spec fn dec_total() -> bool { false }
+        open spec fn dec_stop(rest: Seq<u8>) -> bool { true }
         open spec fn functional() -> bool { true }
         proof fn law_dec_bounds(b: Seq<u8>) {}
         //@ tag enc.law_dec_frame.tag C14
@@ -120,6 +125,7 @@
         open spec fn self_delimiting() -> bool { true }
         open spec fn dec_rel(b: Seq<u8>, v: &Tag, k: int) -> bool { true }
         open spec fn dec_total() -> bool { false }
+        open spec fn dec_stop(rest: Seq<u8>) -> bool { true }
         open spec fn functional() -> bool { true }
         proof fn law_dec_bounds(b: Seq<u8>) {}
         //@ tag enc.law_dec_frame.tagbe C14
@@ -154,6 +160,7 @@
         open spec fn self_delimiting() -> bool { E::self_delimiting() }
         open spec fn dec_rel(b: Seq<u8>, v: &Option<T>, k: int) -> bool { true }
         open spec fn dec_total() -> bool { false }
+        open spec fn dec_stop(rest: Seq<u8>) -> bool { true }
         open spec fn functional() -> bool { E::functional() }
         proof fn law_dec_bounds(b: Seq<u8>) { E::law_dec_bounds(b); }
         //@ tag enc.law_dec_frame.option C14
@@ -185,6 +192,7 @@
         open spec fn self_delimiting() -> bool { false }
         open spec fn dec_rel(b: Seq<u8>, v: &Vec<T>, k: int) -> bool { true }
         open spec fn dec_total() -> bool { false }
+        open spec fn dec_stop(rest: Seq<u8>) -> bool { true }
         open spec fn functional() -> bool { true }
         proof fn law_dec_bounds(b: Seq<u8>) {}
         proof fn law_dec_frame(b: Seq<u8>, s: Seq<u8>) {}
@@ -211,6 +219,7 @@
         open spec fn self_delimiting() -> bool { false }
         open spec fn dec_rel(b: Seq<u8>, v: &String, k: int) -> bool { true }
         open spec fn dec_total() -> bool { false }
+        open spec fn dec_stop(rest: Seq<u8>) -> bool { true }
         open spec fn functional() -> bool { true }
         proof fn law_dec_bounds(b: Seq<u8>) {}
         proof fn law_dec_frame(b: Seq<u8>, s: Seq<u8>) {}
@@ -235,6 +244,7 @@
         open spec fn self_delimiting() -> bool { false }
         open spec fn dec_rel(b: Seq<u8>, v: &String, k: int) -> bool { true }
         open spec fn dec_total() -> bool { false }
+        open spec fn dec_stop(rest: Seq<u8>) -> bool { true }
         open spec fn functional() -> bool { true }
         proof fn law_dec_bounds(b: Seq<u8>) {}
         proof fn law_dec_frame(b: Seq<u8>, s: Seq<u8>) {}
@@ -343,6 +353,7 @@
         open spec fn self_delimiting() -> bool { false }
         open spec fn dec_rel(b: Seq<u8>, v: &String, k: int) -> bool { true }
         open spec fn dec_total() -> bool { false }
+        open spec fn dec_stop(rest: Seq<u8>) -> bool { true }
         open spec fn functional() -> bool { true }
         //@ fn src:zvt_builder/src/encoding.rs | impl Encoding<String> for Utf8 | encode | props=C17,C01 $M
         //@ end
@@ -394,6 +405,7 @@
         open spec fn self_delimiting() -> bool { false }
         open spec fn dec_rel(b: Seq<u8>, v: &NaiveDateTime, k: int) -> bool { true }
         open spec fn dec_total() -> bool { false }
+        open spec fn dec_stop(rest: Seq<u8>) -> bool { true }
         /// only totality and the frame clause are proved for the date decoder
         open spec fn functional() -> bool { false }
         //@ fn src:zvt_builder/src/encoding.rs | impl Encoding<NaiveDateTime> for Default | encode | ext
